@@ -44,6 +44,7 @@ import CxxModel.Theorems.NsForm
 import CxxModel.Theorems.ExternForm
 import CxxModel.Theorems.TopLevel
 import CxxModel.GenCfg
+import CxxModel.Theorems.WholeParse
 namespace Cxx
 
 theorem C12_fold_append (a b : List Event) (i : Nat) (fs fs' : FoldState)
@@ -240,5 +241,27 @@ theorem C12_toplevel_semicolon (env : Env) (hc : env.cfg = genLexCfg) (F : Nat) 
   toplevel_semicolon env (by rw [hc]; exact gen_rules_progress) F c w t b1 ht hty
 
 end
+
+/-! ### whole sources -/
+
+/-- **the whole run on nested namespaces** (`Theorems/WholeParse.lean`): `parse()` on
+    `namespace N { body }` — `body` ANY item, in particular further namespaces to any depth and
+    sequences of any length — returns normally; after `on_parse_start` the callbacks are the
+    namespace's start (a child of the global namespace, carrying the written names), the body's
+    callbacks inside it, and its end; the block stack ends as the global namespace alone. -/
+theorem C12_namespace_source (env : Env) (hc : env.cfg = genLexCfg) (hnf : env.faultAt = none) (hskip : ∀ i h, env.skip i h = false)
+    (F D : Nat) (names : List String) (body : Item env F (P.core F (D + 1 + 1 + 1 + 1)))
+    (filename : String) (content : Str) (bE bEE : Buf)
+    (hat : (Item.ns env (by rw [hc]; exact gen_rules_progress) hnf F D hskip names body).At
+      { tokbuf := [], lex := { rest := content, filename := some filename } } bE)
+    (heof : tokenEofOk env.cfg bE = .ok (none, bEE)) (hF : body.size + 2 + 1 ≤ F) :
+    ∃ (wF : World) (start : Event) (evs : List Event),
+      runParse env filename content (P.parserProg F (D + 1 + 1 + 1 + 1)) = (wF, .ok) ∧ wF.events = start :: evs ∧
+      start.kind = .parseStart ∧
+      BlockEvents globalBlock (fun h => h.kind = .ns ∧ h.ns.names = names ∧ h.ns.inline = false)
+        (fun nb mid => body.Ev nb [globalBlock] mid) evs ∧
+      (∃ g, wF.stack = [g] ∧ g.id = 0 ∧ g.isGlobal = true) :=
+  parse_source env (by rw [hc]; exact gen_rules_progress) hnf F (D + 1 + 1 + 1 + 1)
+    (Item.ns env (by rw [hc]; exact gen_rules_progress) hnf F D hskip names body) filename content bE bEE hat heof hF
 
 end Cxx
